@@ -724,6 +724,13 @@ static int workerMain(int rfd, int wfd)
 		std::string tok;
 		while (ss >> tok) w.push_back(tok);
 		out.clear();
+		if (!w.empty() && w[0] == "endproc") {
+			// the application ends the ordinary way: `endproc exit` = exit() with the library still loaded (static destructors
+			// and atexit handlers run), `endproc dlclose` = dlclose() of the library first.  No reply: the parent reads the status.
+			fflush(NULL);
+			if (w.size() > 1 && w[1] == "dlclose") { dlclose(dl); }
+			exit(0);
+		}
 		if (!w.empty()) runOp(w);
 		out += "\n";
 		if (write(wfd, out.data(), out.size()) < 0) return 99;
@@ -789,7 +796,12 @@ int main(int argc, char **argv)
 		std::string msg = std::string(s) + "\n";
 		bool dead = write(wk.to, msg.data(), msg.size()) < 0;
 		char *resp = NULL; size_t rc = 0;
-		if (!dead && getline(&resp, &rc, wk.fr) > 0) {
+		if (!dead && !strcmp(opname, "endproc")) {
+			int st = 0;
+			waitpid(wk.pid, &st, 0);
+			printf("%lu endproc rv=%s status=%d signal=%d\n", lineno, (WIFEXITED(st) && WEXITSTATUS(st) == 0) ? "0x0" : "DIED", WIFEXITED(st) ? WEXITSTATUS(st) : -1, WIFSIGNALED(st) ? WTERMSIG(st) : 0);
+			close(wk.to); fclose(wk.fr); workers.erase(p);
+		} else if (!dead && getline(&resp, &rc, wk.fr) > 0) {
 			printf("%lu %s%s", lineno, opname, resp);
 		} else {
 			// the worker died while executing this op
